@@ -51,7 +51,7 @@ PROP = {
                    "accounted for against unique input ids and the callback's own log."),
     "level_note": "trusted base: the join of the two hash streams in vf/p_c15.py; Z clause checked only for general-position inputs (as the property states); offsetting Z is checked only for membership in {input ids, ids the callback issued for that point, 0}",
     "technique": "runtime monitoring: cross-build differential (USINGZ off/on) + unique-id Z accounting against the callback log",
-    "rule": ("case i = family i mod 6 (Clipper64 closed GP; with open subjects; ClipperD; ClipperOffset; RectClip/RectClipLines; zoo) with random "
+    "rule": ("case i = family i mod 7 (Clipper64 closed GP; with open subjects; ClipperD; ClipperOffset; RectClip/RectClipLines; zoo; exact rounding ties: half-integer deltas and half/quarter-unit double coordinates at precision 0) with random "
              "clip type, fill rule, options, callback mode; non-trivial iff the subject set is non-empty; distinct by hash of inputs+options; "
              "cross_build_cases_joined counts cases compared across the two builds"),
     "assumptions": ["callbacks only write z (writing x,y from a Clipper64 callback is a user error, not probed)"],
@@ -61,7 +61,7 @@ PROP = {
     "post": _post,
     "replay_cfgs": ["plain", "z"],
     "jobs": [
-        {"mon": "mon_c15", "cfg": "plain", "cases": _q(36000, 1200000), "role": "diff"},
-        {"mon": "mon_c15", "cfg": "z", "cases": _q(36000, 1200000), "role": "diff"},
+        {"mon": "mon_c15", "cfg": "plain", "cases": _q(42000, 1400000), "role": "diff"},
+        {"mon": "mon_c15", "cfg": "z", "cases": _q(42000, 1400000), "role": "diff"},
     ],
 }
